@@ -9,10 +9,12 @@ def run(chk):
                 'volumes; every step is executed by the real command; after EVERY step the projection of the sandbox '
                 'must equal the behaviour state and real trash-list must print exactly the bag ListApply gives for that '
                 'state (records, not lines: names contain newlines); observed steps are re-judged by TLC (TrashTrace). '
-                'non-trivial = a step changed the state; distinct by command sequence x names')
+                'stage history-long-paths: the sandbox lies under 7 nested 242-byte non-ASCII directories. non-trivial = a step changed the state; distinct by command sequence x names')
     chk.assumptions += common.ASSUME
     common.mc(chk, invariants=['ListIsBag'])
     common.behaviours(chk, 'history', 75 if quick else 1200, 10 if quick else 14)
+    # the same with every path long and non-ASCII: the percent-encoded Path= line of a home-trash entry is about 5000 characters
+    common.behaviours(chk, 'history-long-paths', 10 if quick else 150, 8 if quick else 12, opts={'conc': {'deep': True}})
 
 
 def replay(path):
